@@ -118,9 +118,13 @@ class Machine:
             # (`key=sizes.get`)
             for ty, names in self.METHODS.items():
                 if type(base) is ty and e.attr in names and e.attr in (
-                        'get', 'index', 'count', 'lower', 'upper',
+                        'get', 'index', 'count', 'lower', 'upper', '__contains__',
                         'strip', 'issubset', 'issuperset', 'isdisjoint'):
                     return getattr(base, e.attr)
+            # a method of the model object, used as a value
+            # (`starmap(self.ite, ...)`)
+            if isinstance(base, Sym) and e.attr in self.stubs:
+                return ('method', e.attr, base)
             if self.resolver is not None and hasattr(
                     self.resolver, 'chain'):
                 ch = au.chain(e)
@@ -415,7 +419,57 @@ class Machine:
               'join', 'split', 'strip'},
     }
 
+    def apply_builtin(self, name, args, kw):
+        import itertools
+        import functools
+        import operator
+        import bisect
+        call = lambda g: (lambda *a: self.apply_callable(g, list(a)))
+        its = lambda xs: [self.iterate(x) for x in xs]
+        try:
+            if name == 'itertools.starmap':
+                g, xs = args
+                return iter([self.apply_callable(g, list(t))
+                             for t in self.iterate(xs)])
+            if name == 'itertools.filterfalse':
+                g, xs = args
+                if g is None:
+                    return iter([x for x in self.iterate(xs) if not x])
+                return (x for x in self.iterate(xs)
+                        if not self.apply_callable(g, [x]))
+            if name == 'itertools.chain':
+                return itertools.chain(*its(args))
+            if name == 'itertools.product':
+                return itertools.product(*its(args), **kw)
+            if name == 'itertools.pairwise':
+                return itertools.pairwise(self.iterate(args[0]))
+            if name == 'itertools.permutations':
+                return itertools.permutations(self.iterate(args[0]),
+                                              *args[1:])
+            if name == 'itertools.combinations':
+                return itertools.combinations(self.iterate(args[0]),
+                                              *args[1:])
+            if name == 'itertools.repeat':
+                return itertools.repeat(*args)
+            if name == 'functools.reduce':
+                g, xs = args[0], self.iterate(args[1])
+                return functools.reduce(call(g), xs, *args[2:])
+            if name == 'operator.itemgetter':
+                return operator.itemgetter(*args)
+            if name.startswith('operator.'):
+                return getattr(operator, name.split('.')[1])(*args)
+            if name.startswith('bisect.'):
+                return getattr(bisect, name.split('.')[1])(*args, **kw)
+        except (TypeError, ValueError, KeyError, IndexError) as ex:
+            raise Raised(type(ex).__name__)
+        raise Unknown(f'call {name}')
+
     def apply_callable(self, f, args, kw=None):
+        if isinstance(f, tuple) and f and f[0] == 'method':
+            self.receiver = f[2]
+            return self.stubs[f[1]](self, None, list(args), kw or {})
+        if isinstance(f, tuple) and f and f[0] == 'builtin':
+            return self.apply_builtin(f[1], args, kw or {})
         if isinstance(f, tuple) and f and f[0] == 'class':
             return self.instantiate(f, args, kw or {})
         if isinstance(f, tuple) and f and f[0] == 'lambda':
@@ -660,7 +714,8 @@ class Machine:
             fv = self.ev(e.func)
         except Unknown:
             fv = None
-        if isinstance(fv, tuple) and fv and fv[0] in ('closure', 'lambda'):
+        if isinstance(fv, tuple) and fv and fv[0] in (
+                'closure', 'lambda', 'builtin', 'method'):
             args = self.elements(e.args)
             kw = {k.arg: self.ev(k.value) for k in e.keywords if k.arg}
             return self.apply_callable(fv, args, kw)
@@ -964,6 +1019,15 @@ def _as_load(t):
     raise Unknown('augmented assignment target')
 
 
+_STDLIB = {
+    'itertools': {'starmap', 'chain', 'product', 'pairwise', 'filterfalse',
+                  'permutations', 'combinations', 'repeat'},
+    'functools': {'reduce'},
+    'operator': {'itemgetter', 'neg', 'not_', 'and_', 'or_', 'add', 'sub'},
+    'bisect': {'bisect_left', 'bisect_right'},
+}
+
+
 class ModuleEnv:
     """Resolver of the globals of one module of the program: constants
     and tables are evaluated from their top-level assignment (once),
@@ -974,6 +1038,17 @@ class ModuleEnv:
                  fallback=None):
         self.program = program
         self.modname = modname
+        if fallback is None and _cache is None:
+            # constants that need more than expression evaluation
+            # (`typing.Literal[...]` vocabularies): the constant resolver
+            from . import consts
+            cr = consts.ConstResolver(program)
+
+            def fallback(mod, name):
+                v = cr.resolve(mod, [name])
+                if v is None or v[0] != 'const':
+                    raise KeyError(name)
+                return v[1]
         self.fallback = fallback   # (module, name) -> value | KeyError
         self.stubs = stubs if stubs is not None else {}
         self.cache = dict()
@@ -1060,6 +1135,19 @@ class ModuleEnv:
                         self.cache[name] = v
                         return v
                 if sub is None:
+                    lib = (a.name if isinstance(s, ast.Import)
+                           else (s.module or ''))
+                    if isinstance(s, ast.Import) and lib in _STDLIB:
+                        v = Sym(f'module {lib}', {
+                            k: ('builtin', f'{lib}.{k}')
+                            for k in _STDLIB[lib]})
+                        self.cache[name] = v
+                        return v
+                    if isinstance(s, ast.ImportFrom) and lib in _STDLIB \
+                            and a.name in _STDLIB[lib]:
+                        v = ('builtin', f'{lib}.{a.name}')
+                        self.cache[name] = v
+                        return v
                     raise KeyError(name)
                 v = Sym(f'module {sub.modname}', _ModuleAttrs(sub))
             elif isinstance(found, ast.FunctionDef):
